@@ -120,7 +120,10 @@ def build_and_audit(prop: str, tier: str = "quick") -> dict:
             return res
         # forbidden constructs in any source the property depends on (whole library: cheap)
         bad = []
+        registered = set(re.findall(r"^import DictIO\.Props\.(\S+)", (LEAN / "DictIO.lean").read_text(), re.M))
         for f in sorted((LEAN / "DictIO").rglob("*.lean")):
+            if f.parent.name == "Props" and f.stem not in registered:
+                continue        # a proof file under development is not part of any check until DictIO.lean imports it
             for m in FORBIDDEN.finditer(strip_comments(f.read_text())):
                 bad.append(f"{f.relative_to(LEAN)}: {m.group(0).strip()}")
         if bad:
